@@ -51,8 +51,8 @@ PROPS = {
             'note': VERUS_NOTE + '; ' + KANI_NOTE + '; Name::len / OPT::len / SVCB::len and the writers of TXT SVCB NSEC IPSECKEY NSAP are assumed (external_body) in this version'},
     'C03': {'standin': ['roundtrip'], 'verus': True, 'kani': [],
             'technique': 'Verus: Name::compress_append (real body) proved against the RFC 1035 decoder with a ghost invariant on the suffix table; every compressed writer (Question, ResourceRecord incl. the RDLENGTH seek back-patch, RData, wrappers, the eight typed overrides SOA MX MINFO RP AFSDB RT HINFO ISDN, Packet::write_compressed_to) proved to emit bytes that decode to the very value written and are never longer than the plain encoding; default writers via generated per-type round-trip lemmas',
-            'text': 'proof for all packets within DNS size limits written at stream origin 0: Packet::write_compressed_to yields a message m with pkt_dec(m) == the packet (same relation that Packet::parse establishes) and |m| <= |plain encoding|; offsets >= 16384 are never recorded as pointer targets (obligation `pos < 0x4000`). One step is assumed, not proved: overwriting the two RDLENGTH octets preserves earlier decoding facts (named axiom_rdlength_patch_frame, footprint argument in DESIGN.md)',
-            'note': VERUS_NOTE + '; ASSUMED: axiom_rdlength_patch_frame; HashMap key model for &[Label]; writer must start at stream position 0 (known finding D15 otherwise)'},
+            'text': 'proof for all packets within DNS size limits written at stream origin 0: Packet::write_compressed_to yields a message m with pkt_dec(m) == the packet (same relation that Packet::parse establishes) and |m| <= |plain encoding|; offsets >= 16384 are never recorded as pointer targets (obligation `pos < 0x4000`). The RDLENGTH seek-back patch is covered by a window clause carried by every compressed writer (facts hold on every buffer that differs only inside a not-yet-patched RDLENGTH slot); no proof step is assumed',
+            'note': VERUS_NOTE + '; HashMap key model for &[Label]; writer must start at stream position 0 (known finding D15 otherwise)'},
     'C07': {'standin': ['roundtrip'], 'verus': True, 'kani': [], 'scope_findings': [(D15_KEY, D15_TEXT)],
             'technique': 'Verus: post-condition of Name::compress_append (every recorded target < 0x4000, inside the message, decoding to the suffix; pointer emitted iff the suffix is in the table; a name already in the table is written as 2 bytes) + trait-level obligation that the no-compression types (SRV NAPTR KX RRSIG NSEC IPSECKEY SVCB HTTPS) are written in full',
             'text': 'proof: every pointer emitted is 0xC000|p with p < 0x4000 the recorded start of that label suffix (strictly before the current position) and expands to the intended name; types on the RFC no-compression list satisfy io_buf == old + wf_enc (their default write_compressed_to is verified once, generically); a repeated name costs 2 bytes',
@@ -60,7 +60,7 @@ PROPS = {
     'C04': {'standin': ['roundtrip', 'txt'], 'verus': True, 'kani': ['header_write_layout'], 'scope_findings': [(D15_KEY, D15_TEXT)],
             'technique': 'Verus: len() == |wf_enc| per type, RDLENGTH = |rdata encoding|, header counts = section lengths (+1 for OPT), all against an abstract std::io::Write contract (emission log + positional buffer), so any writer kind gives the same bytes',
             'text': 'proof for all packets within DNS size limits and every writer obeying the Write contract: Packet::write_to emits hdr_enc(counts) + sections (+ one OPT record) and nothing else; ResourceRecord::write_to writes RDLENGTH = |RDATA|; errors of the writer propagate through `?` without panics. Packet::write_compressed_to is proved to emit a message that decodes with the header counts, RDLENGTH back-patched to the number of RDATA bytes that follow, and the OPT record exactly once',
-            'note': VERUS_NOTE + '; build_bytes_vec* (Cursor<Vec> wrappers) are not verified; len() of types listed as external_body in the evidence is assumed; compressed writer: stream origin 0 only (known finding D15), axiom_rdlength_patch_frame assumed; TXT size cache set by unverified constructors (TryFrom<&str>) is assumed consistent'},
+            'note': VERUS_NOTE + '; build_bytes_vec* (Cursor<Vec> wrappers) are not verified; len() of types listed as external_body in the evidence is assumed; compressed writer: stream origin 0 only (known finding D15); TXT size cache set by unverified constructors (TryFrom<&str>) is assumed consistent'},
     'C05': {'standin': ['malformed'], 'verus': True, 'kani': [],
             'technique': 'Verus: Packet::parse / parse_section / ResourceRecord::parse / RData::parse / Question::parse proved against an RFC 1035 envelope spec (chain of entries, RDLENGTH-delimited RDATA, typed content decoded from the message truncated at the RDATA end)',
             'text': 'proof for all byte strings: Ok(p) implies the sections are back-to-back chains of entries starting at offset 12 with the header counts, each record spans name + 10 + RDLENGTH bytes, type/class/ttl/cache-flush are those of the entry, and the cursor after each record is its RDATA end',
